@@ -397,6 +397,26 @@ func forSpecials() []model.Stmt {
 		Post: model.Print{E: model.Postfix{Op: "++", X: i}}, Body: body, Else: []model.Stmt{model.Text{S: " never"}}})
 	out = append(out, model.For{Init: &model.Assign{Name: "i", E: lit(5)}, Cond: model.Binary{Op: "<", L: i, R: lit(3)},
 		Post: model.Print{E: model.Postfix{Op: "++", X: i}}, Body: body})
+	// the init clause is a plain expression: the post value is dropped, the body advances the variable (n comes from the data)
+	nv := model.Var{Name: "n"}
+	advance := model.Assign{Name: "n", E: model.Binary{Op: "-", L: nv, R: lit(1)}}
+	nbody := []model.Stmt{model.Text{S: "["}, model.Print{E: nv}, model.Text{S: "]"}, advance}
+	out = append(out, model.For{InitE: nv, Cond: model.Binary{Op: ">", L: nv, R: lit(0)}, Post: model.Print{E: model.Postfix{Op: "++", X: nv}}, Body: nbody})
+	out = append(out, model.For{InitE: model.Binary{Op: "+", L: nv, R: lit(1)}, Cond: model.Binary{Op: ">", L: nv, R: lit(0)}, Post: model.Print{E: model.Postfix{Op: "--", X: nv}}, Body: nbody, Else: []model.Stmt{model.Text{S: " never"}}})
+	out = append(out, model.For{InitE: lit(7), Cond: model.Binary{Op: ">", L: nv, R: lit(1)}, Body: nbody})
+	out = append(out, model.For{InitE: nv, Cond: model.Binary{Op: ">", L: nv, R: lit(0)}, Post: model.Assign{Name: "n", E: model.Binary{Op: "-", L: nv, R: lit(2)}}, Body: []model.Stmt{model.Text{S: "["}, model.Print{E: nv}, model.Text{S: "]"}}})
+	// nested loops that use the same variable name: each loop has its own
+	inner := model.For{Init: &model.Assign{Name: "i", E: lit(5)}, Cond: model.Binary{Op: "<", L: i, R: lit(7)}, Post: model.Print{E: model.Postfix{Op: "++", X: i}}, Body: []model.Stmt{model.Print{E: i}, model.Text{S: ","}}}
+	out = append(out, model.For{Init: &model.Assign{Name: "i", E: lit(0)}, Cond: model.Binary{Op: "<", L: i, R: lit(3)}, Post: model.Print{E: model.Postfix{Op: "++", X: i}},
+		Body: []model.Stmt{model.Text{S: "<"}, model.Print{E: i}, model.Text{S: ":"}, inner, model.Text{S: ":"}, model.Print{E: i}, model.Text{S: ">"}}})
+	innerDown := model.For{Init: &model.Assign{Name: "i", E: lit(9)}, Cond: model.Binary{Op: ">", L: i, R: lit(7)}, Post: model.Print{E: model.Postfix{Op: "--", X: i}}, Body: []model.Stmt{model.Print{E: i}, model.Text{S: ","}}}
+	out = append(out, model.For{Init: &model.Assign{Name: "i", E: lit(0)}, Cond: model.Binary{Op: "<", L: i, R: lit(2)}, Post: model.Print{E: model.Postfix{Op: "++", X: i}},
+		Body: []model.Stmt{model.Text{S: "<"}, innerDown, model.Print{E: i}, model.Text{S: ">"}}})
+	innerEach := model.Each{Var: "v", Arr: intArr(7, 8), Body: []model.Stmt{model.Print{E: model.Var{Name: "v"}}, model.Print{E: loopField("index")}, model.Text{S: ","}}}
+	out = append(out, model.Each{Var: "v", Arr: intArr(1, 2, 3), Body: []model.Stmt{model.Text{S: "<"}, model.Print{E: model.Var{Name: "v"}}, model.Text{S: ":"}, innerEach, model.Text{S: ":"}, model.Print{E: model.Var{Name: "v"}}, model.Print{E: loopField("index")}, model.Text{S: ">"}}})
+	out = append(out, model.Each{Var: "i", Arr: intArr(1, 2), Body: []model.Stmt{model.Text{S: "<"}, inner, model.Print{E: i}, model.Text{S: ">"}}})
+	out = append(out, model.For{Init: &model.Assign{Name: "v", E: lit(0)}, Cond: model.Binary{Op: "<", L: model.Var{Name: "v"}, R: lit(2)}, Post: model.Print{E: model.Postfix{Op: "++", X: model.Var{Name: "v"}}},
+		Body: []model.Stmt{model.Text{S: "<"}, innerEach, model.Print{E: model.Var{Name: "v"}}, model.Text{S: ">"}}})
 	// empty bodies, with and without @else
 	out = append(out, model.Each{Var: "v", Arr: intArr(1, 2), Body: []model.Stmt{}, Else: []model.Stmt{model.Text{S: " never"}}})
 	out = append(out, model.Each{Var: "v", Arr: model.ArrLit{}, Body: []model.Stmt{}, Else: []model.Stmt{model.Text{S: " empty"}}})
